@@ -245,6 +245,7 @@ def run(ctx):
         if cases_c and len(ctx.samples) < 6:
             (rules, user, path), v = next((c for c in cases_c if c[1] not in ("", "ERR")), cases_c[0])
             ctx.samples.append(dict(kind=tag, rules=rules, user=user, path=path, result=v))
+    interleave_monitor(ctx, impl, violation)
     ctx.extra["monitor_failures"] = dict(mon_fail)
 
 
@@ -319,6 +320,49 @@ def product_cases(ctx, users, paths, cases):
     return codes
 
 
+def interleave_monitor(ctx, impl, violation):
+    """Two request threads share ONE from_file back-end instance (as in the server).  Under every schedule with one
+    preemption at line granularity inside rights/from_file.py (and two-preemption schedules up to a budget) each
+    thread's result must equal its sequential result (which the correspondence ties to the model)."""
+    il = X.Interleaver(("radicale/rights/from_file.py", "radicale/rights/__init__.py"))
+    scenarios = list(X.INTERLEAVE_SCENARIOS)
+    for _ in range(ctx.n(2, 12)):
+        rules = X.gen_ff_file(ctx.rng, False, optional_groups=False)[:3]
+        (ua, pa), (ub, pb) = X.gen_ff_queries(ctx.rng, rules, 2)
+        if ua == ub:
+            ub = "bob" if ua != "bob" else "alice"
+        scenarios.append((rules, (ua, pa), (ub, pb)))
+    n_sched = 0
+    for rules, (ua, pa), (ub, pb) in scenarios:
+        try:
+            ro = impl.load(X.render_rules(rules))
+        except Exception:
+            continue
+        fa = lambda: ro.authorization(ua, pa)
+        fb = lambda: ro.authorization(ub, pb)
+        seq = [X.py_authorization(ro, ua, pa), X.py_authorization(ro, ub, pb)]
+        seq2 = [X.py_authorization(ro, ua, pa), X.py_authorization(ro, ub, pb)]
+        if seq != seq2:
+            violation("interleave", "from_file: the same sequential calls give different results the second time: %r then %r (rules %r)" % (seq, seq2, rules),
+                      dict(rules=rules, calls=[[ua, pa], [ub, pb]], schedule="sequential, twice"))
+            continue
+        na, nb = il.count_lines(fa), il.count_lines(fb)
+        for sched in X.schedules_two(na, nb, ctx.n(60, 1500), ctx.rng):
+            res, executed = il.run([fa, fb], sched)
+            n_sched += 1
+            got = [(r[1], "ok") if r[0] == "ok" else ("ERR", r[1]) for r in res]
+            ok = all(g[0] == s_[0] for g, s_ in zip(got, seq))
+            ctx.case(("interleave", repr(rules), ua, pa, ub, pb, repr(sched)), nontrivial=True)
+            if not ok:
+                violation("interleave", "from_file, two threads on one back-end instance: user %r on %r gets %r (alone: %r), user %r on %r gets %r "
+                          "(alone: %r) under schedule %r (thread, lines run)" % (ua, pa, got[0][0], seq[0][0], ub, pb, got[1][0], seq[1][0], executed),
+                          dict(rules=rules, calls=[[ua, pa], [ub, pb]], schedule=[list(x) for x in sched], executed=executed,
+                               got=[g[0] for g in got], sequential=[s_[0] for s_ in seq]))
+                break
+    ctx.count("interleave:schedules", n_sched)
+    ctx.count("interleave:scenarios", len(scenarios))
+
+
 def _user_matches(sec, user):
     try:
         return bool(sec.get("user")) and re.fullmatch(sec["user"].format(), user) is not None
@@ -365,6 +409,17 @@ def replay(ctx, path):
         o = X.oracle_authorization(rp["rules"], rp["user"], rp["path"])
         print("now: %r (%s)  oracle: %r" % (v, k, o))
         return 1 if (k == "none-group-typeerror" or (o is not None and o != v)) else 0
+    if kind == "interleave":
+        impl = X.FromFileImpl(ctx.scratch())
+        ro = impl.load(X.render_rules(rp["rules"]))
+        (ua, pa), (ub, pb) = rp["calls"]
+        seq = [X.py_authorization(ro, ua, pa)[0], X.py_authorization(ro, ub, pb)[0]]
+        il = X.Interleaver(("radicale/rights/from_file.py", "radicale/rights/__init__.py"))
+        res, executed = il.run([lambda: ro.authorization(ua, pa), lambda: ro.authorization(ub, pb)],
+                               [tuple(x) for x in rp["schedule"]])
+        got = [r[1] if r[0] == "ok" else "ERR" for r in res]
+        print("now: interleaved %r, sequential %r, executed %r" % (got, seq, executed))
+        return 0 if got == seq else 1
     if kind == "example-rules":
         impl = X.FromFileImpl(ctx.scratch())
         ro = impl.load(X.render_rules([{k: v for k, v in s.items() if not k.startswith("_")} for s in rp["rules"]]))
